@@ -17,6 +17,16 @@ def S(stream, quick, thorough, **kw):
     return d
 
 PROPS = {
+    "C19": {
+        "file": "C19.v",
+        "streams": [S("est", 60, 800), S("ghost", 150, 3000)],
+        "assumptions": [
+            "fingerprints enter through keyhash.Avalanche, modelled bit-exactly (64-bit wrap explicit) and compared on every trace",
+            "ghost-list clause: decided by correspondence of GhostModel with the real ghostQueue and by the FIFO-window monitor; the refinement proof GhostModel -> abstract ring is not finished (partial)",
+            "the adaptive controller ticked by tickObservation (tick/adaptSize/tuneAdmission) is outside the estimator model; it does not touch sketch or doorkeeper",
+        ],
+        "trusted": ["Modelled, not verified: Go slices as lists with 0 default outside the range (ruled out by c19_indices_in_range)"],
+    },
     "C16": {
         "file": "C16.v",
         "streams": [S("cfg", 400, 6000)],
